@@ -37,9 +37,12 @@ func envOr(k, d string) string {
 }
 
 type Violation struct {
-	Sig    string          `json:"sig"`
-	Detail string          `json:"detail"`
-	Case   json.RawMessage `json:"case"`
+	Sig     string          `json:"sig"`
+	Detail  string          `json:"detail"`
+	Case    json.RawMessage `json:"case"`
+	Shard   int             `json:"shard"`
+	NShards int             `json:"nshards"`
+	Idx     int64           `json:"idx"`
 }
 
 type Meta struct {
@@ -274,11 +277,13 @@ func realMain(id, tier, replay string, workers int, seed int64, cache, work stri
 	var wg sync.WaitGroup
 	broken := false
 	hangs := []string{}
+	var crashes []Violation
 	for s := 0; s < workers; s++ {
 		wg.Add(1)
 		go func(s int) {
 			defer wg.Done()
 			from := int64(0)
+			myCrashes := 0
 			for attempt := 0; attempt < 50; attempt++ {
 				of := filepath.Join(work, fmt.Sprintf("out-%d-%d.json", s, attempt))
 				cmd := exec.Command(bin, "run", id, tier, strconv.Itoa(s), strconv.Itoa(workers), strconv.FormatInt(from, 10), of)
@@ -308,6 +313,41 @@ func realMain(id, tier, replay string, workers int, seed int64, cache, work stri
 					mu.Unlock()
 					from = wo.HangAt + 1
 					continue
+				}
+				if code != 0 && !strings.Contains(eb.String(), "HARNESS PANIC") && !strings.Contains(eb.String(), "harness:") &&
+					(strings.Contains(eb.String(), "\npanic: ") || strings.HasPrefix(eb.String(), "panic: ") || strings.Contains(eb.String(), "fatal error: ")) {
+					// the process died inside the library: a panic on a goroutine the library started (recover() in the
+					// caller cannot see it) or a fatal runtime error. That is a violation at the case in progress.
+					var pr struct {
+						Idx  int64           `json:"idx"`
+						Case json.RawMessage `json:"case"`
+					}
+					if pb, err := os.ReadFile(of + ".progress"); err == nil && json.Unmarshal(pb, &pr) == nil {
+						frame := "?"
+						if m := regexp.MustCompile(regexp.QuoteMeta(repoDir) + `/((?:internal|pkg|cmd)/[^\s:]+\.go):\d+`).FindStringSubmatch(eb.String()); m != nil {
+							frame = m[1]
+						}
+						first := eb.String()
+						if i := strings.Index(first, "panic: "); i >= 0 {
+							first = first[i:]
+						} else if i := strings.Index(first, "fatal error: "); i >= 0 {
+							first = first[i:]
+						}
+						if j := strings.Index(first, "\n"); j > 0 {
+							first = first[:j]
+						}
+						sig := fmt.Sprintf("%s process crash inside the library at %s [crash]", id, frame)
+						crashes = append(crashes, Violation{Sig: sig, Detail: "the worker process died while running this case: " + first + "\n" + tail(eb.String(), 2500), Case: pr.Case, Shard: s, NShards: workers, Idx: pr.Idx})
+						myCrashes++
+						if myCrashes >= 3 {
+							hangs = append(hangs, fmt.Sprintf("shard %d stopped after 3 process crashes (last at case %d)", s, pr.Idx))
+							mu.Unlock()
+							return
+						}
+						mu.Unlock()
+						from = pr.Idx + 1
+						continue
+					}
 				}
 				if code != 0 {
 					broken = true
@@ -364,6 +404,10 @@ func realMain(id, tier, replay string, workers int, seed int64, cache, work stri
 			}
 		}
 		capHit = capHit || o.CapHit
+	}
+	for _, cv := range crashes {
+		vios = append(vios, cv)
+		vioCounts[cv.Sig]++
 	}
 	counters["distinct_outcomes"] = int64(len(outcomes))
 	for _, h := range hangs {
@@ -474,10 +518,47 @@ func realMain(id, tier, replay string, workers int, seed int64, cache, work stri
 		}
 		rwg.Wait()
 	}
+	// A violation whose case does not reproduce on its own may depend on what the process did before it (a cache, a
+	// "last value" kept by the implementation). Re-run the shard that found it, from its start up to that case, twice:
+	// if the same signature comes back both times it is a real, history-dependent violation; otherwise the run is
+	// declared broken (checker nondeterminism), never reported as a violation.
+	for _, pd := range pend {
+		if pd.repro >= 0 && pd.repro < 5 && !strings.Contains(pd.sig, "[nondet-ok]") && pd.v.NShards > 0 {
+			again := 0
+			for k := 0; k < 2; k++ {
+				of := filepath.Join(work, fmt.Sprintf("hist-%d-%d.json", pd.v.Shard, k))
+				cmd := exec.Command(bin, "run", id, tier, strconv.Itoa(pd.v.Shard), strconv.Itoa(pd.v.NShards), "0", of)
+				cmd.Env = append(wenv, fmt.Sprintf("VERIF_UPTO=%d", pd.v.Idx))
+				cmd.Run()
+				var wo WorkerOut
+				if b, err := os.ReadFile(of); err == nil {
+					json.Unmarshal(b, &wo)
+				}
+				if wo.VioCounts[pd.sig] > 0 {
+					again++
+				}
+			}
+			if again == 2 {
+				pd.repro = 5
+				pd.v.Detail = fmt.Sprintf("[does not reproduce from the single case: depends on earlier cases of the same process; reproduced 2/2 by re-running shard %d/%d up to case %d]\n", pd.v.Shard, pd.v.NShards, pd.v.Idx) + pd.v.Detail
+				rb, _ := json.MarshalIndent(map[string]any{"property": id, "sig": pd.sig, "detail": pd.v.Detail, "case": pd.v.Case, "tier": tier,
+					"history": map[string]any{"shard": pd.v.Shard, "nshards": pd.v.NShards, "upto_case_index": pd.v.Idx, "how": fmt.Sprintf("VERIF_UPTO=%d vworker run %s %s %d %d 0 out.json", pd.v.Idx, id, tier, pd.v.Shard, pd.v.NShards)}}, "", " ")
+				os.WriteFile(pd.rp, rb, 0o644)
+			}
+		}
+	}
+	unconfirmed := 0
 	for i, pd := range pend {
-		if pd.repro >= 0 && pd.repro < 5 && !strings.Contains(pd.sig, "[nondet-ok]") {
-			fmt.Fprintf(os.Stderr, "BROKEN: violation %q reproduced only %d/5 times from %s — checker nondeterminism, not reported as a violation\n%s\n", pd.sig, pd.repro, pd.rp, pd.v.Detail)
-			exit = 2
+		if pd.repro >= 2 && pd.repro < 5 {
+			// fails again in at least 2 of 5 independent fresh processes: the implementation itself behaves
+			// nondeterministically on this case (goroutines, pools); the harness has no timing oracle that could
+			// explain a repeated failure
+			pd.v.Detail = fmt.Sprintf("[reproduced %d/5 from the replay file: nondeterministic in the implementation]\n", pd.repro) + pd.v.Detail
+			pd.repro = 5
+		}
+		if pd.repro >= 0 && pd.repro < 5 && !strings.Contains(pd.sig, "[nondet-ok]") && !strings.Contains(pd.sig, "[crash]") {
+			fmt.Fprintf(os.Stderr, "UNCONFIRMED: violation %q reproduced only %d/5 times from %s and not by re-running its shard — not reported as a violation\n%s\n", pd.sig, pd.repro, pd.rp, tail(pd.v.Detail, 600))
+			unconfirmed++
 			continue
 		}
 		newViolations++
@@ -490,6 +571,11 @@ func realMain(id, tier, replay string, workers int, seed int64, cache, work stri
 		if exit == 0 {
 			exit = 1
 		}
+	}
+	if unconfirmed > 0 && exit == 0 {
+		// something failed once and never again, and nothing else was confirmed: no verdict (checker nondeterminism)
+		fmt.Fprintln(os.Stderr, "BROKEN: only unconfirmed failures — no verdict")
+		exit = 2
 	}
 	for _, l := range knownLines {
 		fmt.Println(l)
